@@ -211,7 +211,7 @@ func NewView(rec *world.Rec) *View {
 	}
 	// adoption / release patches that succeeded in this reconcile
 	for _, c := range rec.Calls {
-		if c.Verb == "patch" && c.Resource == "pods" && c.OK() {
+		if c.Verb == "patch" && c.Resource == "pods" && c.Applied {
 			if strings.Contains(c.Patch, `"$patch":"delete"`) {
 				v.Released[c.Name] = true
 			} else if strings.Contains(c.Patch, `"ownerReferences"`) {
@@ -245,7 +245,7 @@ func NewView(rec *world.Rec) *View {
 	}
 	sortRevs(listed)
 	for _, c := range rec.Calls {
-		if c.Verb == "create" && c.Resource == "controllerrevisions" && c.OK() {
+		if c.Verb == "create" && c.Resource == "controllerrevisions" && c.Applied {
 			v.UpdateRev = c.Name
 		}
 	}
